@@ -684,7 +684,9 @@ def function(
     return_val = (
         Return(
             value=ast.parse(
-                intermediate_repr["returns"]["return_type"]["default"].strip("`")
+                "{}".format(intermediate_repr["returns"]["return_type"]["default"]).strip(
+                    "`"
+                )
             )
             .body[0]
             .value,
